@@ -312,7 +312,7 @@ def check_printer_base(r, repo):
         else:
             ok = not idx_append and not idx_add
             r.ob("R5.8", key, ok, "path without need_ref assigns or marks the ref as defined", loc(rel, f))
-    if n_assign_paths == 0:
+    if n_assign_paths == 0 and not any(o["rule"] == "R5.8" and not o["ok"] for o in r.obligations):
         raise AnalysisError("PrinterBase.tostring: no assignment path recognised")
     # R5.10 template application: operands forwarded in order, unsliced
     fmt_calls = [c for c in calls_in(f) if isinstance(c.func, ast.Attribute) and c.func.attr == "format" and dotted(c.func.value) == "tmpl"]
